@@ -4,12 +4,15 @@ import json
 
 CHECKS = {
  "C18": dict(
-   text="Lean 4 proof over a model regenerated from include/utap/range.h on every run: 45 theorems give the set-theoretic "
-        "membership characterisation of every range_t operation for all integers (no bound). The translator is validated by "
+   text="Lean 4 proof over two models regenerated from include/utap/range.h on every run: for integral T (arithmetic in Int, i.e. no "
+        "overflow) 50 theorems give the set-theoretic membership characterisation of every range_t operation for all integers; for "
+        "floating-point T the order-theoretic operations (gt lt geq leq & | contains intersects == <, incl. the +-infinity branches) "
+        "are proved over an abstract linear order with infinities and nexttoward as successor. The translator is validated by "
         "running the generated model and the real range_t<int32_t> on the same operation lines; a direct set-semantics oracle "
         "on the implementation (exhaustive for int8_t) produces the replay when a proof or the correspondence breaks.",
    note="Trusted: Lean kernel, axioms propext/Quot.sound/Classical.choice, translate/range_h.py (validated by the correspondence), "
-        "harness/c18.cpp. Integral T without overflow is proved; floating-point T is only tested at boundary values.",
+        "harness/c18.cpp. Floating point: the FloatLike axioms are assumed of IEEE double (NaN excluded, -0.0 = +0.0); "
+        "floating-point + - * round and are not claimed (boundary values are tested by the oracle).",
    technique="Lean 4 theorems over a model translated from range.h + differential correspondence",
    design="4/C18"),
 }
